@@ -264,6 +264,10 @@ impl Instruction {
 
 impl Exec for Instruction {
     fn exec(&self, interpreter: &mut Interpreter) -> ExecResult {
+        #[cfg(simplesl_verif)]
+        if let Some(result) = crate::verif::hook_exec(self, interpreter) {
+            return result;
+        }
         match_any! { self,
             Self::Variable(var) => Ok(var.clone()),
             Self::LocalVariable(ident, _) => interpreter
